@@ -1,4 +1,5 @@
 import MesonModel.Tap.Model
+import MesonModel.Tap.Consumer
 import Driver.Proto
 /- driver commands of area `tap` -/
 namespace Driver.Tap
@@ -66,8 +67,34 @@ def showState (s : PState) : String :=
     | some p => s!"{p.numTests}:{boolStr p.late}:{boolStr p.skipped}:{showOpt p.explanation}"
   s!"{showMode s.state}/{p}/{s.numTests}/{s.lastTest}/{s.highestTest}/{boolStr s.foundLateTest}/{boolStr s.bailedOut}/{s.version}/{s.lineno}/{showOptNat s.yamlLineno}/{showStr s.yamlIndent}"
 
+/-- `n1|ls1|n2|ls2|…` -/
+def decodeStreams : List String → List (List (List Char))
+  | n :: ls :: rest => decodeLines n ls :: decodeStreams rest
+  | _ => []
+
+def resultOfName (s : String) : TestResult :=
+  match TestResult.all.find? (fun r => r.name == s) with
+  | some r => r
+  | none => .RUNNING
+
+def showTrailer : WarnTrailer → String
+  | .none => "none" | .ignored => "ignored" | .probablyBug => "bug"
+
+/-- canonical text of a `TestRunTAP` after `parse` + `complete` -/
+def showRun (t : RunTAP) : String :=
+  let pr := passedRan t
+  let prs := if t.results.isEmpty then "" else if pr.1 = pr.2 then s!"{pr.1}" else s!"{pr.1}/{pr.2}"
+  let errs := ",".intercalate (t.errs.map showErr)
+  let warns := ",".intercalate (t.warns.map (fun w => s!"{w.2}:{showStr w.1}"))
+  let logged := ",".intercalate (t.logged.map (fun l => s!"{showStr l.1}:{l.2.1.name}:{showOpt l.2.2}"))
+  s!"res={t.res.name}|results={showEvents t.results}|errs={errs}|warns={warns}|trailer={showTrailer t.trailer}|note={boolStr t.exitNote}|logged={logged}|pr={prs}"
+
 def handle (cmd : String) (fs : List String) : String :=
   match cmd, fs with
+  | "consume", [ef, inter, rc, res0, n, ls] =>
+    showRun (runTAP (ef == "1") (inter == "1") rc.toInt! (resultOfName res0) (parse (decodeLines n ls)))
+  | "reuse", [n1, ls1, n2, ls2] => showEvents (reuse (decodeLines n1 ls1) (decodeLines n2 ls2))
+  | "session", fs => "|".intercalate ((session Proc.boot (decodeStreams fs)).2.map showEvents)
   | "cls", [l] => showClass (classify (rstrip (decodeStr l)))
   | "yaml", [l] =>
     let l := decodeStr l
